@@ -177,7 +177,7 @@ struct Audio {
 fn corpus(seed: u64) -> Vec<Audio> {
     let mut rng = Rng::new(seed, 0xC10);
     let mut out = vec![];
-    for (i, (ch, bps, bs, n, kind)) in [(1u8, 16u32, 16u16, 40usize, "walk"), (2, 16, 32, 70, "sine"), (3, 24, 16, 33, "noise")].iter().enumerate() {
+    for (i, (ch, bps, bs, n, kind)) in [(1u8, 16u32, 16u16, 40usize, "walk"), (2, 16, 32, 70, "sine"), (3, 24, 16, 33, "noise"), (2, 16, 4096, 9000, "noise")].iter().enumerate() {
         let pcm = gen_pcm(&mut rng, kind, *ch as usize, *bps, *n);
         let opts = Options::default().block_size(*bs).unwrap().no_padding().no_seektable();
         let bytes = match encode_samples(opts, 44100, *bps, *ch, &pcm, i % 2 == 0) {
@@ -487,6 +487,13 @@ fn main() {
             specs.push(format!("audio=1 pre=0 fe=path layout={} edits={}", lay, e));
         }
     }
+    // ---- B2: audio longer than any internal buffer (audio=3, about 36 KB of frames): rebuilds and in-place edits
+    // through both front-ends; a rebuild has to carry every frame byte over, whatever order it opens things in
+    for (lay, e) in [("", "aa:100"), ("A64", "ax"), ("A64", "ar:+50"), ("P4", "aa:100"), ("P300", "aa:100"), ("P300,A64", "ar:-7"), ("V5", "vs:400")] {
+        specs.push(format!("audio=3 pre=0 fe=path layout={} edits={}", lay, e));
+        specs.push(format!("audio=3 pre=0 fe=mem layout={} edits={}", lay, e));
+    }
+    specs.push("audio=3 pre=11 fe=mem layout=A9 edits=aa:2000".to_string());
     // ---- C: the 24-bit limit (16 MiB files)
     let mut bigs: Vec<String> = vec![];
     for k in 0i64..=8 {
